@@ -66,12 +66,13 @@ type RT struct {
 	panics  map[[2]int]*PanicVal
 	curOp   int
 	advance func(time.Duration)
+	ftypes  map[*Fn]reflect.Type
 	active  map[int]int // fn → number of bodies currently on the stack
 	Nested  []int       // fns whose body was entered while already running
 }
 
 func newRT() *RT {
-	return &RT{execs: map[int]int{}, errs: map[[2]int]*UserErr{}, panics: map[[2]int]*PanicVal{}, active: map[int]int{}}
+	return &RT{ftypes: map[*Fn]reflect.Type{}, execs: map[int]int{}, errs: map[[2]int]*UserErr{}, panics: map[[2]int]*PanicVal{}, active: map[int]int{}}
 }
 
 func (rt *RT) newTok(fn, exec int, slot string, elem int) int64 {
@@ -261,23 +262,24 @@ func decodeArg(p Param, v reflect.Value) Prov {
 	return Prov{Kind: "single", Tok: tok, Dyn: dynTypeName(v)}
 }
 
-func (rt *RT) mkResult(f *Fn, exec int, r Result, slot string, toks *[]int64) reflect.Value {
+// mkResult builds a value of type t for result spec r (t is taken from the
+// function's real signature so that declared struct types work too).
+func (rt *RT) mkResult(f *Fn, exec int, r Result, t reflect.Type, slot string, toks *[]int64) reflect.Value {
 	if r.isObj() {
-		v := reflect.New(resultType(r)).Elem()
+		v := reflect.New(t).Elem()
 		for i, q := range r.Obj {
-			v.Field(i + 1).Set(rt.mkResult(f, exec, q, fmt.Sprintf("%s.%d", slot, i), toks))
+			v.Field(i + 1).Set(rt.mkResult(f, exec, q, t.Field(i+1).Type, fmt.Sprintf("%s.%d", slot, i), toks))
 		}
 		return v
 	}
 	if r.Host != "" {
-		return reflect.Zero(resultType(r))
+		return reflect.Zero(t)
 	}
 	if r.Slice || r.Flatten {
-		st := resultType(r)
 		if r.N == 0 && r.Nil {
-			return reflect.Zero(st)
+			return reflect.Zero(t)
 		}
-		sl := reflect.MakeSlice(st, 0, r.N)
+		sl := reflect.MakeSlice(t, 0, r.N)
 		for e := 0; e < r.N; e++ {
 			tok := rt.newTok(f.ID, exec, slot, e)
 			*toks = append(*toks, tok)
@@ -288,6 +290,18 @@ func (rt *RT) mkResult(f *Fn, exec int, r Result, slot string, toks *[]int64) re
 	tok := rt.newTok(f.ID, exec, slot, 0)
 	*toks = append(*toks, tok)
 	return mkValue(r.T, r.Impl, tok)
+}
+
+func (rt *RT) typeOfFn(f *Fn) reflect.Type {
+	if f.Bank > 0 && f.Bank <= len(bankTypes) {
+		return bankTypes[f.Bank-1]
+	}
+	if t, ok := rt.ftypes[f]; ok {
+		return t
+	}
+	t := fnType(f)
+	rt.ftypes[f] = t
+	return t
 }
 
 // call is the body shared by every materialised function.
@@ -326,11 +340,12 @@ func (rt *RT) call(f *Fn, args []reflect.Value) []reflect.Value {
 		errVal = reflect.New(errType).Elem()
 		errVal.Set(reflect.ValueOf(rt.errOf(f.ID, exec)))
 	}
+	ft := rt.typeOfFn(f)
 	for i, r := range f.R {
 		if ep == i {
 			out = append(out, errVal)
 		}
-		out = append(out, rt.mkResult(f, exec, r, fmt.Sprint(i), &toks))
+		out = append(out, rt.mkResult(f, exec, r, ft.Out(len(out)), fmt.Sprint(i), &toks))
 	}
 	if ep >= len(f.R) {
 		out = append(out, errVal)
@@ -344,15 +359,17 @@ func (rt *RT) Materialise(f *Fn) interface{} {
 	if f.Bank > 0 {
 		return bankMake(rt, f)
 	}
-	ft := fnType(f)
+	ft := rt.typeOfFn(f)
 	return reflect.MakeFunc(ft, func(args []reflect.Value) []reflect.Value {
 		return rt.call(f, args)
 	}).Interface()
 }
 
-// bankMake is replaced by the generated bank (bank.go) when present.
-var bankMake = func(rt *RT, f *Fn) interface{} {
-	panic("function bank not linked")
+func bankMake(rt *RT, f *Fn) interface{} {
+	if f.Bank < 1 || f.Bank > len(bankFactories) {
+		panic(fmt.Sprintf("no bank entry %d", f.Bank-1))
+	}
+	return bankFactories[f.Bank-1](rt, f)
 }
 
 func hostileType(name string) reflect.Type {
